@@ -42,7 +42,8 @@ def test_fallbacks_upm_1000():
     assert r.val("openTypeNameVersion") == "Version 0.000"
     assert r.val("openTypeHeadCreated") == "2020/09/13 12:26:40"
     e = r.expected_fields("otf")
-    assert e[("head", "flags")] == ("eq", 3) and e[("OS/2", "fsType")] == ("eq", 4)
+    assert e[("head", "flags")] == ("masked", 3, 0xFFFF) and e[("OS/2", "fsType")] == ("eq", 4)
+    assert r.expected_fields("ttf")[("head", "flags")] == ("masked", 3, 0xFFFD)
     assert e[("OS/2", "fsSelection")] == ("eq", 64) and e[("head", "macStyle")] == ("eq", 0)
     assert e[("OS/2", "ySubscriptXSize")] == ("int", 650, True)
     assert e[("OS/2", "yStrikeoutPosition")] == ("int", 300, True)
